@@ -832,7 +832,7 @@ fn main() {
             specs.extend(c.lines().filter(|l| !l.trim().is_empty() && !l.starts_with('#')).map(|s| s.to_string()));
         }
         let mut rng = Rng::new(seed_from_env());
-        let langs = ["arith", "lst", "stmt", "jsonish", "fx_inline_rules", "fx_dynamic_precedence", "fx_readme_grammar", "fx_aliased_rules"];
+        let langs = ["arith", "lst", "stmt", "jsonish", "fx_inline_rules", "fx_dynamic_precedence", "fx_readme_grammar", "c08scan"];
         let per = if thorough { 120 } else { 14 };
         for lang in langs {
             for kind in KINDS {
